@@ -403,6 +403,8 @@ def run(seed=0, rounds=400):
         check('min-first-minimal', min(ts) == r and ts.index(min(ts)) == ts.index(r), ts)
         order = sorted(range(len(ts)), key=lambda n: (len(ts[n]), ts[n][-1]), reverse=True)
         check('sorted-key-reverse', [ts[n] for n in order] == sorted(ts, key=lambda t: (len(t), t[-1]), reverse=True), ts)
+    from native import axioms_c06b  # numpy METADATA axioms of pyvc/npshape.py + nutils_poly plan shapes (contracts/C06b.py)
+    axioms_c06b.run(rng, check, rounds=max(10, rounds // 8))
     print('AXIOMS ' + json.dumps(dict(rounds=rounds, failures=fails[:5])))
     ok_sets = run_sets(seed)
     ok_ev = evaluable_nodes(seed)
